@@ -35,7 +35,9 @@ type Twin struct {
 }
 
 func (w *World) newTwin() error {
-	c, err := simnet.NewChain(dbm.NewMemDB(), "", simnet.GenesisOptions{Accounts: w.Accts})
+	g := w.genOpts // the same genesis, initialised independently (other map iteration order)
+	g.Previous = false
+	c, err := simnet.NewChain(dbm.NewMemDB(), "", g)
 	if err != nil {
 		return err
 	}
